@@ -24,8 +24,8 @@ LEVEL_TEXT = ("Two parts. (1) Model checking: TLC explores ConfLife.tla - init /
 LEVEL_NOTE = ("'Memory-safe for all byte strings / all path strings' is sampled under ASan, not proved: the claim is 'no violation on "
               "everything explored'. The lifecycle/capacity/spawn-enabling part is model checked over a finite abstraction and bound to "
               "the code by TLC trace validation. Whether a text contains a trigger (back-quote, %exec, %preproc) is computed by the driver "
-              "from the bytes it generated. Value expansion proper (spifconf_shell_expand, built-ins) is C10's code: crashes inside it on "
-              "byte soup are reported under their own keys. Trusted: TLC, harness/conf_replay.c, ASan, the link-time wrappers.")
+              "from the bytes it generated. The functional result of value expansion is C10's subject; here only its safety, "
+              "spawning, descriptors and heap balance are judged. Trusted: TLC, harness/conf_replay.c, ASan, the link-time wrappers.")
 TECHNIQUE = "TLA+ lifecycle spec model-checked by TLC + instrumented drivers (ASan, link-time spawn refusal) with TLC trace validation of the recorded event streams"
 DESIGN_REF = "DESIGN.md section 6 C11"
 
@@ -154,6 +154,14 @@ def adversarial(rnd):
     # texts that DO ask for a process: the attempt must be seen (and is refused), a temp file made for it must be private
     for body in (b"begin A\nv `echo hi`\nend\n", b"begin A\nv %exec(echo hi)\nend\n", b"%preproc cat\nbegin A\nt\nend\n"):
         out.append(one_file("adv:trigger", body))
+    # ... also when the command cannot even be attempted: no temp file can be made / the command does not fit the line buffer
+    s = Script("adv:trigger-notmp")
+    s.add("setenv %s %s" % (bl(b"TMPDIR"), bl(b"./no-such-dir")), op="setenv")
+    s.file("m.cfg", MAGIC + b"begin A\nv `echo hi` %exec(echo ho)\nend\n")
+    s.init(); s.reg("null", 1); s.reg("A", 2); s.parse("m.cfg"); s.expand(b"x `echo hi` y"); s.free()
+    s.add("setenv %s -" % bl(b"TMPDIR"), op="setenv")
+    out.append(s)
+    out.append(one_file("adv:trigger-toolong", b"begin A\nv `" + b"a" * 20460 + b"`\nv %exec(" + b"b" * 20455 + b")\nend\n"))
     return out
 
 
